@@ -317,3 +317,86 @@ def run(ck, prog):
     centred_variance(ck, prog)
     by_construction(ck, prog)
     storage_map(ck, prog)
+
+
+def buffer_reuse(ck, prog):
+    """a DenseMatrix built from (a copy of) self's whole storage buffer must have self's shape: the buffer is only
+    meaningful together with the storage map of its own (nrows, ncols)"""
+    from sa.prov import Resolver, render, subterms, alts
+    rule, inst0 = "E6-storage-map", "whole-buffer reuse keeps the shape"
+    n = 0
+    for b in sorted(prog.bodies.values(), key=lambda b: b.path):
+        if b.kind == "Closure" or not ((b.impl_self or "").startswith("linalg::naive::dense_matrix::DenseMatrix<T>")
+                                       or b.path.startswith("linalg::naive::dense_matrix::DenseMatrix::<T>::")):
+            continue
+        if b.raw.get("span_x"):
+            continue
+        res = Resolver(b)
+        is_self_values = lambda t: any(a[0] == "field" and a[2] == "values" and a[1][0] == "arg" and a[1][1] == 1 for a in alts(t))
+        sites = []
+        for bb, t in b.calls():
+            f = t.get("f")
+            if f and f["path"].endswith("DenseMatrix::<T>::new") and len(t["args"]) == 3:
+                a = [res.operand(x) for x in t["args"]]
+                if is_self_values(a[2]):
+                    sites.append((b.where(bb), a[0], a[1]))
+        for i, j, s in b.stmts():
+            r = s["r"] if s["k"] == "assign" else None
+            if r and r["k"] == "agg" and r["ak"] == "adt" and r["name"].endswith("dense_matrix::DenseMatrix") and not s.get("x"):
+                vals = dict(zip(r["fields"], [res.operand(o) for o in r["ops"]]))
+                if "values" in vals and is_self_values(vals["values"]):
+                    sites.append((b.where(i, j), vals.get("nrows"), vals.get("ncols")))
+        for where, nr, nc in sites:
+            n += 1
+            inst = f"DenseMatrix::{b.name}: {inst0}"
+            dr, dc = dim_of(nr) if nr else None, dim_of(nc) if nc else None
+            same = dr and dc and dr[0] == "rows" and dc[0] == "cols" and dr[1][0] == "arg" and dr[1][1] == 1 and dc[1][0] == "arg" and dc[1][1] == 1
+            if same:
+                ck.ok(rule, inst, b.path, where, "same (nrows, ncols) as self")
+            else:
+                ck.violation(rule, inst, b.path, where, ordinal=n, expected="a matrix that takes over self.values also takes over (self.nrows, self.ncols)",
+                             found=f"self.values is reused with shape ({render(nr)[:40] if nr else None}, {render(nc)[:40] if nc else None}): the buffer is re-read under a different storage map")
+
+
+def centred_cov(ck, prog):
+    """covariance: each factor of an accumulated product is (x[k, c] - mean[c]) with the SAME column c in both places"""
+    from sa.prov import Resolver, render, subterms
+    rule, inst = "E2f-centred", "DenseMatrix::cov centres column c with the mean of column c"
+    bs = [b for b in prog.bodies.values() if b.name == "cov" and b.impl_trait == "linalg::BaseMatrix" and (b.impl_self or "").startswith("linalg::naive::dense_matrix")]
+    if len(bs) != 1:
+        ck.violation(rule, inst, "DenseMatrix::cov", "", expected="anchor exists", found=f"{len(bs)}")
+        return
+    b = bs[0]
+    res = Resolver(b)
+    n = 0
+    for bb, t in b.calls():
+        f = t.get("f")
+        if not (f and f["path"].endswith(("::add_element_mut", "AddAssign::add_assign"))):
+            continue
+        v = res.operand(t["args"][-1])
+        if not (v[0] == "call" and v[1] == "std::ops::Mul::mul"):
+            continue
+        for F in v[2]:
+            if not (F[0] == "call" and F[1] == "std::ops::Sub::sub"):
+                continue
+            x, m = F[2]
+            if x[0] == "call" and x[1].endswith("BaseMatrix::get") and m[0] == "idx":
+                n += 1
+                col = x[2][2]
+                if m[2] == col:
+                    ck.ok(rule, inst, b.path, b.where(bb), f"{render(F)[:80]}")
+                else:
+                    ck.violation(rule, inst, b.path, b.where(bb), ordinal=n, expected="x[k, c] - mean[c]",
+                                 found=f"column `{render(col)[:40]}` is centred with the mean of column `{render(m[2])[:40]}`")
+    if n < 2:
+        ck.violation(rule, inst, b.path, f"{b.loc[0]}:{b.loc[1]}", expected="two centred factors in the accumulated product", found=f"{n} recognised")
+
+
+_run_c03b = run
+
+
+def run(ck, prog):
+    _run_c03b(ck, prog)
+    buffer_reuse(ck, prog)
+    centred_cov(ck, prog)
+    ck.floor("E2f-centred", 4)
